@@ -2,7 +2,8 @@
    The textbook-weight identity is proved for every odd order 1..111 (halfp 1..56), every tap and every real fraction
    0 <= d < 1: polynomial identities with integer coefficients decided per order by computation and lifted to the reals. *)
 From Coq Require Import ZArith List Reals.
-From SK Require Import Arith Lagrange LagrangeQ LagrangeAll.
+From Flocq Require Import Raux.
+From SK Require Import Arith Lagrange LagrangeQ LagrangeAll LagrangeInterp LagrangeShift.
 Import ListNotations.
 Theorem C16_integer_shift_is_displacement : forall h k, (1 <= h)%Z -> (0 <= k < 2 * h)%Z ->
   tap RA h 0%R k = if (k =? h - 1)%Z then 1%R else 0%R.
@@ -16,6 +17,31 @@ Theorem C16_taps_are_textbook_lagrange : forall (h : Z) (k : nat) (d : R),
   (1 <= h <= 56)%Z -> (k < Z.to_nat (2 * h))%nat -> (0 <= d < 1)%R ->
   tap RA h d (Z.of_nat k) = lagrange_weight (nodesR h) k d.
 Proof. exact taps_are_textbook_lagrange. Qed.
+(* headline: at every sample whose stencil is interior the shifted record is the value at n+s of the polynomial through the
+   surrounding samples — any polynomial with at most 2*halfp coefficients (degree <= order) is reproduced exactly *)
+Theorem C16_shift_reproduces_polynomials : forall (h : Z) (q : rpoly) (data : list R) (s : R) (n : nat),
+  (1 <= h <= 56)%Z -> (length q <= Z.to_nat (2 * h))%nat ->
+  (forall i, (i < length data)%nat -> nth i data 0%R = reval q (IZR (Z.of_nat i))) ->
+  (n < length data)%nat ->
+  (0 <= Z.of_nat n + Zfloor s - (h - 1))%Z -> (Z.of_nat n + Zfloor s + h <= Z.of_nat (length data) - 1)%Z ->
+  nth n (timeshift_const RA data s h) 0%R = reval q (IZR (Z.of_nat n) + s)%R.
+Proof. exact timeshift_const_reproduces_polynomials. Qed.
+Theorem C16_taps_sum_to_one : forall (h : Z) (d : R), (1 <= h <= 56)%Z -> (0 <= d < 1)%R ->
+  fold_left (fun t k => (t + tap RA h d (Z.of_nat k))%R) (seq 0 (Z.to_nat (2 * h))) 0%R = 1%R.
+Proof. exact taps_sum_to_one. Qed.
+Theorem C16_integer_shift_holds_ends : forall (h : Z) (data : list R) (m : Z) (n : nat),
+  (1 <= h)%Z -> (n < length data)%nat ->
+  nth n (timeshift_const RA data (IZR m) h) 0%R
+  = nth (Z.to_nat (clampZ 0 (Z.of_nat (length data) - 1) (Z.of_nat n + m))) data 0%R.
+Proof. exact timeshift_const_integer_shift. Qed.
+Theorem C16_zero_shift_is_identity : forall (h : Z) (data : list R), (1 <= h)%Z -> timeshift_const RA data 0%R h = data.
+Proof. exact timeshift_const_zero_is_identity. Qed.
+(* interpolation theory for any distinct real nodes (no bound on their number) *)
+Theorem C16_lagrange_reproduces : forall (xs : list R), NoDup xs -> forall (q : rpoly) (x : R), (length q <= length xs)%nat ->
+  fold_left (fun t k => (t + reval q (nth k xs 0%R) * lagrange_weight xs k x)%R) (seq 0 (length xs)) 0%R = reval q x.
+Proof. exact lagrange_reproduces. Qed.
 Print Assumptions C16_integer_shift_is_displacement.
+Print Assumptions C16_shift_reproduces_polynomials.
+Print Assumptions C16_zero_shift_is_identity.
 Print Assumptions C16_taps_are_textbook_lagrange.
 Print Assumptions C16_order3_textbook.
